@@ -1,4 +1,5 @@
 import L21.Props.C17
+import L21.Props.C17Sorted
 #print axioms L21.Dep.c17_sound
 #print axioms L21.Dep.c17_cycle_error
 #print axioms L21.Dep.c17_depth
@@ -8,3 +9,4 @@ import L21.Props.C17
 #print axioms L21.Dep.c17_listing
 #print axioms L21.Dep.c17_error_cycle_reachable
 #print axioms L21.Dep.c17_error_iff
+#print axioms L21.Dep.c17_sorted_listing_is_kept
